@@ -115,9 +115,38 @@ def geometry_laws(ift):
     return out, n
 
 
+def check_lm(ift, c):
+    """LMSpace(lmax, mmax) and its natural power space against LMBins.tla"""
+    out = []
+    sp = ift.LMSpace(c["lmax"], c["mmax"])
+    if sp.size != c["size"]:
+        out.append("size %d, expected %d" % (sp.size, c["size"]))
+    kl = np.asarray(sp.get_k_length_array().asnumpy())
+    got = [int(np.sum(kl == l)) for l in range(c["lmax"] + 1)]
+    if got != c["counts"] or len(kl) != c["size"]:
+        out.append("k-length array holds %s coefficients per l, expected %s" % (got, c["counts"]))
+    uk = np.asarray(sp.get_unique_k_lengths())
+    if not np.array_equal(uk, np.arange(c["lmax"] + 1)):
+        out.append("unique k-lengths %s, the k-length array has %s" % (uk.tolist(), sorted(set(kl.tolist()))))
+    try:
+        ps = ift.PowerSpace(sp)
+        pin = np.asarray(ps.pindex.asnumpy() if hasattr(ps.pindex, "asnumpy") else ps.pindex)
+        cnt = [int(np.sum(pin == b)) for b in range(ps.shape[0])]
+        if ps.shape[0] != c["lmax"] + 1 or cnt != c["counts"]:
+            out.append("natural power space has %d bins with populations %s, expected %d bins with %s" % (ps.shape[0], cnt, c["lmax"] + 1, c["counts"]))
+        elif not np.allclose(np.asarray(ps.dvol), c["counts"]) or not np.allclose(np.asarray(ps.k_lengths), np.arange(c["lmax"] + 1)):
+            out.append("natural power space: bin volumes %s / k-lengths %s, expected %s / 0..lmax" % (np.asarray(ps.dvol).tolist(), np.asarray(ps.k_lengths).tolist(), c["counts"]))
+        if not np.all(kl[np.argsort(pin, kind="stable")] == np.sort(kl)):
+            out.append("bins are not ordered by k-length")
+    except Exception as e:
+        out.append("PowerSpace raised %s: %s" % (type(e).__name__, str(e)[:120]))
+    return out
+
+
 # ---- identity ------------------------------------------------------------------------------------------------
 def make_desc(ift, desc, entry, existing):
-    rg, rgh, un = ift.RGSpace(4), ift.RGSpace(4, harmonic=True), ift.UnstructuredDomain(2)
+    # (the harmonic grid has distances that do not survive 1/(n (1/(n d))) in floating point: a pickle must carry them as they are)
+    rg, rgh, un = ift.RGSpace(4), ift.RGSpace((7,), 0.2, harmonic=True), ift.UnstructuredDomain(2)
     tuples = {"T_rg": (rg,), "T_rgh": (rgh,), "T_rg_un": (rg, un), "T_un_rg": (un, rg), "T_power": (ift.PowerSpace(rgh),)}
     if entry == "pickle":
         return pickle.loads(pickle.dumps(existing))
@@ -161,8 +190,10 @@ import sys, pickle
 import nifty.cl as ift
 objs = pickle.loads(sys.stdin.buffer.read())
 rg, un = ift.RGSpace(4), ift.UnstructuredDomain(2)
-local = [ift.DomainTuple.make((rg, un)), ift.MultiDomain.make({"b": (rg, un), "a": (rg,)}), ift.DomainTuple.make(ift.PowerSpace(ift.RGSpace(4, harmonic=True)))]
-ok = all(a is b for a, b in zip(objs, local))
+local = [ift.DomainTuple.make((rg, un)), ift.MultiDomain.make({"b": (rg, un), "a": (rg,)}), ift.DomainTuple.make(ift.PowerSpace(ift.RGSpace(4, harmonic=True))),
+         ift.DomainTuple.make(ift.RGSpace((7,), 0.2, harmonic=True)), ift.DomainTuple.make(ift.RGSpace((9,), 0.7).get_default_codomain()),
+         ift.DomainTuple.make(ift.PowerSpace(ift.RGSpace((4, 5, 3), (1.1, 2.3, 0.7)).get_default_codomain()))]
+ok = len(objs) == len(local) and all(a is b for a, b in zip(objs, local))
 print("FRESH-OK" if ok else "FRESH-BAD")
 '''
 
@@ -184,6 +215,12 @@ def run(ctx):
         gv, ng = geometry_laws(ift)
     for msg in gv:
         ctx.violation(dict(kind="volume-law"), msg, replay=dict(what="laws"))
+    lm = ctx.tlc("LMBins", "CONSTANTS MaxL = %d\nSPECIFICATION Spec\nINVARIANT SizeLaw\nINVARIANT BinLaw\nINVARIANT UniqueLaw\nINVARIANT Emit\n" % (5 if q_ else 7), label="spherical-harmonic spaces", workers=1, deadlock=False)
+    with quiet():
+        for c in lm.emitted:
+            ctx.case(("lm", c["lmax"], c["mmax"]))
+            for msg in check_lm(ift, c):
+                ctx.violation(dict(kind="lm-geometry"), "LMSpace(%d, %d): %s" % (c["lmax"], c["mmax"], msg), replay=dict(lm=c))
     # ---- identity ------------------------------------------------------------------------------------------------
     ctx.tlc("DomainCache", "CONSTANTS MaxOps = %d\nEmitHist = FALSE\nSPECIFICATION Spec\nINVARIANT Canonical\nCHECK_DEADLOCK FALSE\n" % (3 if q_ else 4), label="cache histories")
     s = ctx.tlc("DomainCache", "CONSTANTS MaxOps = 7\nEmitHist = TRUE\nSPECIFICATION Spec\nINVARIANT Canonical\nINVARIANT Emit\nCHECK_DEADLOCK FALSE\n", label="simulated call histories",
@@ -196,7 +233,9 @@ def run(ctx):
         if msg:
             ctx.violation(dict(kind="identity"), msg, replay=dict(hist=d["hist"]))
     rg, un = ift.RGSpace(4), ift.UnstructuredDomain(2)
-    objs = [ift.DomainTuple.make((rg, un)), ift.MultiDomain.make({"a": (rg,), "b": (rg, un)}), ift.DomainTuple.make(ift.PowerSpace(ift.RGSpace(4, harmonic=True)))]
+    objs = [ift.DomainTuple.make((rg, un)), ift.MultiDomain.make({"a": (rg,), "b": (rg, un)}), ift.DomainTuple.make(ift.PowerSpace(ift.RGSpace(4, harmonic=True))),
+            ift.DomainTuple.make(ift.RGSpace((7,), 0.2, harmonic=True)), ift.DomainTuple.make(ift.RGSpace((9,), 0.7).get_default_codomain()),
+            ift.DomainTuple.make(ift.PowerSpace(ift.RGSpace((4, 5, 3), (1.1, 2.3, 0.7)).get_default_codomain()))]
     p = subprocess.run([sys.executable, "-c", FRESH], input=pickle.dumps(objs), stdout=subprocess.PIPE, stderr=subprocess.PIPE, timeout=300)
     ctx.case("fresh-process")
     if b"FRESH-OK" not in p.stdout:
@@ -212,6 +251,10 @@ def run(ctx):
 def replay(ctx, doc):
     import nifty.cl as ift
     c = doc["case"]
+    if "lm" in c:
+        with quiet():
+            for msg in check_lm(ift, c["lm"]):
+                ctx.violation(doc.get("key", dict(kind="lm-geometry")), msg, replay=c)
     if "config" in c:
         with quiet():
             viols, _ = check_config(ift, c["config"])
